@@ -1,7 +1,7 @@
 (* C15/Props.v — the property theorems, nothing else.  Each is closed by [exact] of a lemma of
    Proofs.v and followed by Print Assumptions (parsed by the harness on every run). *)
 From Coq Require Import ZArith List.
-From FV Require Import Base.Res Base.BE C15.Model C15.Proofs C15.ModelDeltas C15.ProofsDeltas.
+From FV Require Import Base.Res Base.BE C15.Model C15.Proofs C15.ModelDeltas C15.ProofsDeltas C15.ModelPoints C15.ProofsPoints.
 Import ListNotations.
 Open Scope Z_scope.
 
@@ -59,3 +59,13 @@ Theorem deltas_roundtrip_total : forall ds, forallb in32 ds = true ->
   exists bytes, compileDeltaValues ds = Ok bytes /\ decompileDeltas (length ds) bytes = Ok (ds, []).
 Proof. exact ProofsDeltas.deltas_roundtrip_total. Qed.
 Print Assumptions deltas_roundtrip_total.
+
+(* packed point numbers (gvar/cvar): an explicit, sorted point set of fewer than 32768 points (the count is stored in 15 bits) that
+   compiles decodes back to itself, consuming exactly the bytes written -- byte runs, word runs, runs of more than 128 points *)
+Theorem points_roundtrip : forall pts bytes, pts <> [] -> Z.of_nat (length pts) < 32768 ->
+  compilePoints pts = Ok bytes -> decompilePoints bytes = Ok (Some pts, []).
+Proof. exact ProofsPoints.points_roundtrip. Qed.
+Print Assumptions points_roundtrip.
+Example points_example : compilePoints [17; 18; 19; 20; 21; 22; 23] = Ok [7; 6; 17; 1; 1; 1; 1; 1; 1] /\
+  compilePoints [3; 300; 301; 60000] = Ok [4; 0; 3; 130; 1; 41; 0; 1; 233; 51].
+Proof. split; vm_compute; reflexivity. Qed.
